@@ -10,13 +10,14 @@ twice) and compares with the CLI."""
 import json
 
 from .. import build, core, qlang
+from .. import gen_classes, gen_classical
 
 PROP = "C18"
 RULE = ("programs whose behaviour depends on state that could leak between executions: static counters "
         "mutated per run, generic specialisations created lazily, arrays sized by final int constants, "
         "objects that own qubits (index free list), measured flags left set, tracked counts, allocation "
         "that depends on measured bits; built from the quantum generator (profiles qasm/handles/tracked/"
-        "measure) plus a classical epilogue; N in {2, 5} quick, {2, 8, 32} thorough. Distinct = distinct "
+        "measure) plus a classical epilogue; a deterministic classical family (name-shadowing generics: class names reused as type-parameter names with 'new' inside generic code; the C08 class-hierarchy generator; the C07 classical generator) where every shot must print what one fresh run prints; N in {2, 5} quick, {2, 8, 32} thorough. Distinct = distinct "
         "(program, N); non-trivial = the program allocates at least one object or qubit.")
 ASSUMPTIONS = ["per-execution reseeding through the guarded exec_begin hook makes shot k of a multi-shot run and a "
                "fresh process with EXEC_BASE=k consume identical draws",
@@ -80,6 +81,115 @@ def make_source(ctx, index):
     return src
 
 
+NAME_POOL = ["Item", "Tag", "T", "K", "V", "Node", "E"]
+
+
+def shadow_program(rng):
+    """Deterministic classical program in which class names, type-parameter names and the classes
+    instantiated from inside generic code overlap: whatever an execution caches per name (type bindings,
+    specialisations, static storage, constructor tables) is wrong for the next one if it survives."""
+    plain = rng.sample(NAME_POOL, rng.randint(2, 3))
+    gnames = rng.sample(["Shelf", "Wrap", "Duo", "Crate"], rng.randint(1, 3))
+    out = []
+    for n in plain:
+        out.append("class %s {\n    public int id;\n    public static int made = 0;\n"
+                   "    public constructor(int id) -> %s { this.id = id; made = made + 1; return this; }\n"
+                   "    public function stamp() -> int { return this.id * 10 + made; }\n}" % (n, n))
+    gens = []
+    for gi, g in enumerate(gnames):
+        nparams = rng.choice([1, 1, 2])
+        params = []
+        while len(params) < nparams:                  # type-parameter names, biased towards class names
+            c = rng.choice(plain) if rng.random() < 0.6 else rng.choice(NAME_POOL)
+            if c not in params:
+                params.append(c)
+        usable = [n for n in plain if n not in params]
+        body = ["class %s<%s> {" % (g, ", ".join(params))]
+        body.append("    public %s held;" % params[0])
+        body.append("    public static int count = 0;")
+        sig = ", ".join("%s a%d" % (p_, i) for i, p_ in enumerate(params))
+        inner = ""
+        if usable and rng.random() < 0.5:
+            inner = " %s tmp = new %s(%d);" % (usable[0], usable[0], rng.randint(1, 9))
+        body.append("    public constructor(%s) -> %s<%s> { this.held = a0; count = count + 1;%s return this; }" %
+                    (sig, g, ", ".join(params), inner))
+        body.append("    public function get() -> %s { return this.held; }" % params[0])
+        body.append("    public function seen() -> int { return count; }")
+        makers = []
+        for mi, n in enumerate(usable[:2]):
+            body.append("    public function mk%d() -> %s { return new %s(%d); }" % (mi, n, n, rng.randint(1, 9)))
+            makers.append(("mk%d" % mi, n))
+        if gens and rng.random() < 0.7:
+            og, op, _ = rng.choice(gens)
+            if len(op) == 1:
+                body.append("    public function nest() -> %s<int> { return new %s<int>(%d); }" % (og, og, rng.randint(1, 9)))
+                makers.append(("nest", "%s<int>" % og))
+        body.append("}")
+        out.append("\n".join(body))
+        gens.append((g, params, makers))
+    main = ["function main() -> void {"]
+    vid = [0]
+
+    def fresh():
+        vid[0] += 1
+        return "v%d" % vid[0]
+
+    def typed_arg():
+        k = rng.randrange(3)
+        if k == 0:
+            return "int", str(rng.randint(1, 50)), lambda v: "echo(%s);" % v
+        if k == 1:
+            return "string", '"s%d"' % rng.randint(1, 9), lambda v: "echo(%s);" % v
+        n = rng.choice(plain)
+        return n, "new %s(%d)" % (n, rng.randint(1, 9)), lambda v: "echo(%s.id);" % v
+    for _ in range(rng.randint(4, 10)):
+        k = rng.randrange(4)
+        if k == 0:
+            n = rng.choice(plain)
+            v = fresh()
+            main.append("    %s %s = new %s(%d);" % (n, v, n, rng.randint(1, 9)))
+            main.append("    echo(%s.stamp());" % v)
+        else:
+            g, params, makers = rng.choice(gens)
+            args = [typed_arg() for _ in params]
+            v = fresh()
+            ty = "%s<%s>" % (g, ", ".join(a[0] for a in args))
+            main.append("    %s %s = new %s(%s);" % (ty, v, ty, ", ".join(a[1] for a in args)))
+            main.append("    " + args[0][2]("%s.get()" % v))
+            main.append("    echo(%s.seen());" % v)
+            for mk, rt in makers:
+                if rng.random() < 0.7:
+                    w = fresh()
+                    main.append("    %s %s = %s.%s();" % (rt, w, v, mk))
+                    main.append("    echo(%s.%s);" % (w, "seen()" if "<" in rt else "stamp()"))
+            if rng.random() < 0.4:
+                # a plain 'new' right after generic code ran: first use of a stale binding
+                n = rng.choice(plain)
+                w = fresh()
+                main.append("    %s %s = new %s(%d);" % (n, w, n, rng.randint(1, 9)))
+                main.append("    echo(%s.stamp());" % w)
+    main.append("}")
+    # a plain 'new' BEFORE any generic code: correct in a first execution even with a stale cache
+    first = rng.choice(plain)
+    main.insert(1, "    %s v0 = new %s(1);\n    echo(v0.stamp());" % (first, first))
+    return "\n".join(out) + "\n" + "\n".join(main) + "\n"
+
+
+def classical_source(ctx, index):
+    """Deterministic (no simulator draws) programs: every execution must print exactly the same."""
+    rng = ctx.rng("cls/%d" % index)
+    k = index % 3
+    if k == 0:
+        return shadow_program(rng)
+    if k == 1:
+        try:
+            return gen_classes.generate(rng)[0]
+        except Exception:
+            return shadow_program(rng)
+    made = gen_classical.make_program(rng, False)
+    return made[1] if made else shadow_program(rng)
+
+
 def digest(events):
     """Per-execution observable stream (without execution index / wall-clock dependent fields)."""
     out = []
@@ -99,7 +209,8 @@ def digest(events):
 
 
 def check_case(ctx, binary, evalmon, case):
-    src = make_source(ctx, case["index"])
+    classical = case.get("family") == "classical"
+    src = classical_source(ctx, case["index"]) if classical else make_source(ctx, case["index"])
     N = case["n"]
     seed = (ctx.seed * 15485863 + case["index"]) & 0x7fffffff
     env = {"BLOCH_VERIF_SEED": str(seed), "BLOCH_VERIF_GC": "none"}
@@ -112,8 +223,13 @@ def check_case(ctx, binary, evalmon, case):
     runs = qlang.split_executions(eva)
     ctx.note_case((src, N), sample=dict(shots=N, tail=src[-500:]))
     ctx.count("multi_shot_runs")
+    if classical:
+        ctx.count("classical_programs_%s" % ("accepted" if ca[0] == "ok" else "stopped_with_diagnostic"))
     singles = []
     for k in range(N if ca[0] == "ok" else len(runs)):
+        if classical and singles:
+            singles.append(singles[0])      # no draws: one fresh run stands for every k
+            continue
         e = dict(env)
         e["BLOCH_VERIF_EXEC_BASE"] = str(k)
         rb, evb, qb, _ = core.run_bloch(binary, src, args=["--shots=1", "--echo=all"], env=e, trace=True, timeout=120)
@@ -190,6 +306,8 @@ def run(ctx):
         for n in ((2, 5) if ctx.quick() else (2, 8, 32)):
             if (i + n) % 2 == 0 or n == 2:
                 cases.append(dict(index=i, n=n))
+    for i in range(ctx.n(90, 1500)):
+        cases.append(dict(index=i, n=3 if ctx.quick() else (3, 9)[i % 2], family="classical"))
     core.pmap(lambda c: check_case(ctx, binary, evalmon, c), cases)
 
 
